@@ -219,3 +219,115 @@ def merge_cases_other():
             ro = to_text(make_ro(STORY_IDS[:n], layout=layout, timing='mixed'))
             for cls, doc, meta in other_messages(STORY_IDS[:n]):
                 yield {'ro': ro, 'msg': to_text(doc), 'meta': dict(meta, cls=cls, n=n, layout=layout)}
+
+
+# ---- random messages relative to a state, and histories ----------------------
+
+def _pick_ref(rng, existing, p_bad=0.15):
+    r = rng.random()
+    if existing and r > p_bad:
+        return rng.choice(existing)
+    return rng.choice([UNKNOWN, None, ABSENT])
+
+
+def random_story_message(rng, sids, mid, fresh):
+    """one story-level message with references drawn (mostly) from the existing story IDs"""
+    kind = rng.choice(['send', 'append', 'delete', 'eadelete', 'insert', 'eainsert', 'move',
+                       'eamove', 'replace', 'eareplace', 'swap'])
+    def newids(n):
+        return [fresh() for _ in range(n)]
+    def refs(n, distinct=True):
+        pool = list(sids)
+        rng.shuffle(pool)
+        out = pool[:n] if distinct else [rng.choice(sids) for _ in range(n)] if sids else []
+        return [x if rng.random() > 0.1 else rng.choice([UNKNOWN, None]) for x in out]
+    if kind == 'send':
+        sid = _pick_ref(rng, sids)
+        body = [p('para %d' % mid), E('storyItem', E('itemID', text='s%d' % mid)), p()]
+        rng.shuffle(body)
+        return story_send(mid, sid, body=body, pre=[E('storySlug', text='sent %d' % mid)],
+                          post=[payload(duration=str(rng.randrange(1, 40)))] if rng.random() < 0.5 else [])
+    if kind == 'append':
+        return story_append(mid, [new_story(s) for s in newids(rng.randrange(0, 3))])
+    if kind == 'delete':
+        return story_delete(mid, refs(rng.randrange(0, 4)))
+    if kind == 'eadelete':
+        ids = refs(rng.randrange(1, 4))
+        return element_action(mid, 'DELETE', None, ea_ids('storyID', ids, rng.choice(['one', 'each'])) or [[]])
+    payload_ids = newids(rng.randrange(0, 3))
+    if sids and rng.random() < 0.2:
+        payload_ids.insert(rng.randrange(0, len(payload_ids) + 1), rng.choice(sids))
+    if kind == 'insert':
+        return story_insert(mid, _pick_ref(rng, sids), [new_story(s) for s in payload_ids])
+    if kind == 'eainsert':
+        tgt = _pick_ref(rng, sids)
+        return element_action(mid, 'INSERT', [ref('storyID', tgt)], [[new_story(s) for s in payload_ids]])
+    if kind == 'replace':
+        return story_replace(mid, _pick_ref(rng, sids), [new_story(s) for s in payload_ids])
+    if kind == 'eareplace':
+        return element_action(mid, 'REPLACE', [ref('storyID', _pick_ref(rng, sids))],
+                              [[new_story(s) for s in payload_ids]])
+    if kind == 'move':
+        src = _pick_ref(rng, sids, 0.1)
+        tgt = _pick_ref(rng, sids, 0.3)
+        return story_move(mid, [src] if tgt == ABSENT else [src, tgt])
+    if kind == 'eamove':
+        tgt = _pick_ref(rng, sids, 0.3)
+        srcs = refs(rng.randrange(1, 4), distinct=rng.random() < 0.9)
+        return element_action(mid, 'MOVE', None if rng.random() < 0.1 else [ref('storyID', tgt)],
+                              ea_ids('storyID', srcs, rng.choice(['one', 'each'])))
+    ids = refs(2, distinct=rng.random() < 0.9) if rng.random() < 0.9 else refs(rng.choice([0, 1, 3]))
+    return element_action(mid, 'SWAP', [ref('storyID', None)], [[ref('storyID', i) for i in ids]])
+
+
+def random_item_message(rng, sids, items_of, mid, fresh):
+    """one item-level message addressed (mostly) to an existing story"""
+    sid = _pick_ref(rng, sids, 0.1)
+    its = items_of.get(sid, []) if isinstance(sid, str) else []
+    kind = rng.choice(['delete', 'eadelete', 'insert', 'eainsert', 'replace', 'eareplace',
+                       'move', 'eamove', 'swap'])
+    def refs(n, distinct=True):
+        pool = list(its)
+        rng.shuffle(pool)
+        out = pool[:n] if distinct else ([rng.choice(its) for _ in range(n)] if its else [])
+        return [x if rng.random() > 0.1 else rng.choice([UNKNOWN, None]) for x in out]
+    new = [new_item(fresh()) for _ in range(rng.randrange(0, 3))]
+    if kind == 'delete':
+        return item_delete(mid, sid, refs(rng.randrange(0, 4)))
+    if kind == 'eadelete':
+        ids = refs(rng.randrange(1, 4))
+        return element_action(mid, 'DELETE', [ref('storyID', sid)], ea_ids('itemID', ids, rng.choice(['one', 'each'])) or [[ref('itemID', UNKNOWN)]])
+    if kind == 'insert':
+        return item_insert(mid, sid, _pick_ref(rng, its, 0.3), new)
+    if kind == 'eainsert':
+        tgt = _pick_ref(rng, its, 0.3)
+        return element_action(mid, 'INSERT', ea_target(sid, None if tgt == ABSENT else tgt), [new])
+    if kind == 'replace':
+        return item_replace(mid, sid, _pick_ref(rng, its, 0.15), new)
+    if kind == 'eareplace':
+        tgt = _pick_ref(rng, its, 0.15)
+        return element_action(mid, 'REPLACE', ea_target(sid, None if tgt == ABSENT else tgt), [new])
+    if kind == 'move':
+        tgt = _pick_ref(rng, its, 0.3)
+        return item_move_multiple(mid, sid, refs(rng.randrange(0, 4), distinct=rng.random() < 0.9) + [None if tgt == ABSENT else tgt])
+    if kind == 'eamove':
+        tgt = _pick_ref(rng, its, 0.3)
+        srcs = refs(rng.randrange(1, 4), distinct=rng.random() < 0.9) or [UNKNOWN]
+        return element_action(mid, 'MOVE', ea_target(sid, None if tgt == ABSENT else tgt), [[ref('itemID', i) for i in srcs]])
+    ids = refs(2, distinct=rng.random() < 0.9) if rng.random() < 0.9 else refs(rng.choice([1, 3]))
+    return element_action(mid, 'SWAP', [ref('storyID', sid)], [[ref('itemID', i) for i in ids] or [ref('itemID', UNKNOWN)]])
+
+
+def state_ids(ro_text):
+    """(story ids, {story id: item ids}) of a running order text"""
+    from xml.etree import ElementTree as ET
+    root = ET.fromstring(ro_text)
+    rc = root.find('roCreate')
+    sids, items = [], {}
+    if rc is not None:
+        for s in rc.findall('story'):
+            sid = s.findtext('storyID')
+            if sid:
+                sids.append(sid)
+                items[sid] = [i.findtext('itemID') for i in s.findall('item') if i.findtext('itemID')]
+    return sids, items
